@@ -85,7 +85,7 @@ def main():
         pass
     m = {
       "version": 1,
-      "setup_cmd": "cd /verif && /venv/bin/python -m compileall -q vf && for f in spec/*.tla; do tla-sany \"$f\" >/dev/null || exit 1; done",
+      "setup_cmd": "cd /verif && /venv/bin/python -m compileall -q vf >/dev/null && cd /verif/spec && for f in *.tla; do tla-sany \"$f\" >/dev/null 2>&1 || { echo \"tla-sany failed on $f\"; exit 1; }; done; echo setup-ok",
       "hooks": {"guard": "EXPLORERSCRIPT_VERIF", "enable": "environment variable EXPLORERSCRIPT_VERIF=1 (set by ./check); pure Python, no build step",
                 "baseline_off_cmd": "cd /repo && env -u EXPLORERSCRIPT_VERIF /venv/bin/python -m pytest -ra -q -p no:cacheprovider --timeout=900 --continue-on-collection-errors",
                 "source_commits": hooks_commits, "add_only": True},
